@@ -26,6 +26,14 @@ def sliceTo : Text → Nat → Option Text
 def slice (t : Text) (a b : Nat) : Option Text :=
   if a ≤ b then (sliceTo t b).bind fun pre => sliceFrom pre a else none
 
+/-- byte offset of the LAST occurrence of `pat` (Rust `str::rfind(&str)`; the empty pattern is found at the end) -/
+def rfind? (pat : Text) : Text → Option Nat
+  | [] => if pat.isEmpty then some 0 else none
+  | c :: cs =>
+    match rfind? pat cs with
+    | some n => some (n + utf8Len c)
+    | none => if startsWith (c :: cs) pat then some 0 else none
+
 /-- byte offset of the LAST character satisfying `p` (Rust `str::rfind(char)`) -/
 def rfindChar? (p : Char → Bool) : Text → Option Nat
   | [] => none
